@@ -104,6 +104,8 @@ type Engine struct {
 	Stats Stats
 
 	top       *frame
+	rtypes    map[string]*RType
+	rtypeT    types.Type
 	debugOut  []string
 	skipIntrinsic bool
 	funcByName map[string]*ssa.Function
@@ -607,7 +609,7 @@ func (e *Engine) callSSA(caller *frame, pos token.Pos, fn *ssa.Function, args []
 				panic(r)
 			}
 		}()
-	} else if denyCall(fn) {
+	} else if denyCall(fn) && !denyExceptions(fn) {
 		e.unsupported("call into non-modelled function %s", fn)
 	}
 	e.depth++
@@ -787,6 +789,12 @@ func (e *Engine) prepareCall(fr *frame, call *ssa.CallCommon) (fn V, args []V) {
 		}
 		if st, ok := recv.V.P.(*EnvStub); ok && recv.V.K == KOpaque {
 			fn = V{K: KFunc, P: st.method(call.Method)}
+			args = make([]V, 0, len(call.Args)+1)
+			args = append(args, recv.V)
+		} else if ho, ok := recv.V.P.(hostObject); ok && recv.V.K == KOpaque {
+			hf := ho.hostMethod(e, call.Method.Name())
+			inner := hf.Fn
+			fn = V{K: KFunc, P: &HostFunc{Name: hf.Name, Fn: func(e *Engine, fr *frame, a []V) V { return inner(e, fr, a[1:]) }}}
 			args = make([]V, 0, len(call.Args)+1)
 			args = append(args, recv.V)
 		} else {
